@@ -185,6 +185,7 @@ va!("Quat::slerp {lane}: -end exactly when dot < 0, sin-weighted blend", close(r
             hs.append(Harness(f"c12_quat_slerp_sse2_restated_{lane}", body, backend="smt", uf=("sqrt", "sin", "acos_approx"), extra_stubs=[("glam::sse2::m128_sin", "crate::uf_m128_sin")],
                               desc="SSE2 Quat::slerp lane == restatement outside the lerp fallback: uses -end exactly when dot < 0, (q sin((1-s)t) + e' sin(s t)) / sin t; m128_sin, acos_approx uninterpreted",
                               site="Quat::slerp", cap=200))
+            # (an interpreted twin - real m128_sin, shorter-arc property on a box of inputs - was tried as a counterexample search for mutants: SAT did not finish in 600 s)
     return hs
 
 
